@@ -236,6 +236,8 @@ type LoopSpec struct {
 	Decreases  Expr
 	Hints      []*Hint // assumed at loop head after the invariants (checked if assert)
 	BodyHints  []*Hint // at body start
+	PreHints   []*Hint // before the loop is entered (before the invariants are first checked)
+	EndHints   []*Hint // at every back edge, before the invariants are re-checked
 }
 
 // GhostPoint attaches hints to a program point.
